@@ -148,10 +148,14 @@ Definition e2e_expected (f : format) (enclose noheader : bool) (t : table) : tab
 
 Record ecase := mkE {
   eid : N; esid : N; efmt : format; eenclose : bool; enoheader : bool;
-  esrc : table;                         (* the table csvq was asked to write *)
+  esrc : table;                         (* the table csvq was asked to write (with the inserted record, if any) *)
   eafter : obs;                         (* what a fresh csvq process reads from the written file *)
-  ebytes : option str;                  (* CSV/TSV/LTSV: the file as code points, for the line-break check *)
-  elb : linebreak; edelim : N
+  ebytes : option str;                  (* CSV/TSV/LTSV in UTF-8: the file as code points *)
+  elb : linebreak; edelim : N;
+  estrip : bool;                        (* --strip-ending-line-break *)
+  eins : nat;                           (* number of records at the end of esrc that a second process INSERTed and COMMITted *)
+  erepaired : bool; eletters : list N;
+  ecmp : bool                           (* the file was read back as UTF-8 text: compare it with the model's bytes *)
 }.
 Definition e_detected (c : ecase) (b : str) : option linebreak :=
   match efmt c with
@@ -159,8 +163,61 @@ Definition e_detected (c : ecase) (b : str) : option linebreak :=
   | FLtsv => match ltsv_read false b with inr (_, _, d) => d | inl _ => None end
   | _ => None
   end.
+
+(* the bytes the models predict for the file: written once by SELECT ... --out / stdout, or written, loaded
+   by a second process (dialect from the file), extended by one record and written back at COMMIT *)
+Definition cells_of (rows : list (list (option str))) : list (list cell) :=
+  map (map (fun c => match c with None => CNull | Some s => CText s end)) rows.
+Definition e_tail (c : ecase) : option linebreak := if estrip c then None else Some (elb c).
+Definition e_model_bytes (c : ecase) : option (option str) :=       (* None = no model for this format *)
+  let n := (length (t_rows (esrc c)) - eins c)%nat in
+  let before := firstn n (t_rows (esrc c)) in
+  let ins := skipn n (t_rows (esrc c)) in
+  match efmt c with
+  | FCsv | FTsv =>
+      let o := WO (edelim c) (elb c) (eenclose c) (enoheader c) (erepaired c) in
+      match eins c with
+      | O => Some (csv_file o (e_tail c) (t_header (esrc c)) (cells_of before))
+      | _ =>
+        match csv_file o (e_tail c) (t_header (esrc c)) (cells_of before) with
+        | None => Some None
+        | Some b1 =>
+          match csv_load (ropts_of o) (letter_of (eletters c)) b1 with
+          | inl _ => Some (Some b1)            (* the second process cannot load the file: it stays as it is *)
+          | inr l =>
+            if negb (forallb (fun r => Nat.eqb (length r) (length (t_header (l_table l)))) ins) then Some (Some b1)
+            else
+            let o2 := export_options (erepaired c) (load_file_info (FI (edelim c) 0 (elb c) (enoheader c) false) l) in
+            Some (csv_file o2 (e_tail c) (t_header (l_table l)) (cells_of (t_rows (l_table l) ++ ins)))
+          end
+        end
+      end
+  | FLtsv =>
+      match eins c with
+      | O => Some (opt_of (ltsv_file (elb c) (e_tail c) (t_header (esrc c)) (cells_of before)))
+      | _ =>
+        match ltsv_file (elb c) (e_tail c) (t_header (esrc c)) (cells_of before) with
+        | inl _ => Some None
+        | inr b1 =>
+          match ltsv_load false b1 with
+          | inl _ => Some (Some b1)
+          | inr l =>
+            if negb (forallb (fun r => Nat.eqb (length r) (length (t_header (l_table l)))) ins) then Some (Some b1)
+            else
+            let lb2 := match l_lb l with Some x => x | None => elb c end in
+            Some (opt_of (ltsv_file lb2 (e_tail c) (t_header (l_table l)) (cells_of (t_rows (l_table l) ++ ins))))
+          end
+        end
+      end
+  | _ => None
+  end.
+
 Definition check_e (cs : list ecase) : list (N * N) :=
   flat_map (fun c =>
+    (match (if ecmp c then e_model_bytes c else None) with
+     | Some mb => if ostr_opt_eqb mb (ebytes c) then [] else [((match efmt c with FLtsv => 7 | _ => 1 end), eid c)]
+     | None => []
+     end) ++
     (if obs_table_is (eafter c) (e2e_expected (efmt c) (eenclose c) (enoheader c) (esrc c)) then [] else [(3, esid c)]) ++
     (if obs_rectangular (eafter c) then [] else [(4, esid c)]) ++
     match ebytes c with
@@ -182,4 +239,4 @@ Definition expected_lw (c : lwcase) :=
    match lwbytes c with Some b => Some (obs_of (ltsv_load false b)) | None => None end,
    ltsv_expected (lwhdr c) (lwrows c)).
 Definition expected_lr (c : lrcase) := (lrid c, obs_of (ltsv_load (lrwn c) (lrinput c))).
-Definition expected_e (c : ecase) := (eid c, e2e_expected (efmt c) (eenclose c) (enoheader c) (esrc c)).
+Definition expected_e (c : ecase) := (eid c, e2e_expected (efmt c) (eenclose c) (enoheader c) (esrc c), e_model_bytes c).
